@@ -29,6 +29,8 @@ pub struct Emit<'a> {
     pub uses_u: bool,
     udecl: HashMap<String, usize>,
     umemo: HashMap<u32, String>,
+    /// nodes emitted as fresh variables (cut with abstraction)
+    pub abs: Vec<u32>,
 }
 
 fn num(n: i128) -> String {
@@ -60,6 +62,7 @@ impl<'a> Emit<'a> {
             uses_u: false,
             udecl: HashMap::new(),
             umemo: HashMap::new(),
+            abs: vec![],
         };
         s.den("1.0".into());
         s
@@ -75,13 +78,13 @@ impl<'a> Emit<'a> {
     }
     fn def(&mut self, body: String) -> String {
         self.fresh += 1;
-        let n = format!("t{}", self.fresh);
+        let n = format!("t.{}", self.fresh);
         writeln!(self.defs, "(define-fun {} () Real {})", n, body).unwrap();
         n
     }
     fn declare(&mut self, p: &str) -> String {
         self.fresh += 1;
-        let n = format!("{}{}", p, self.fresh);
+        let n = format!("{}.{}", p, self.fresh);
         writeln!(self.decls, "(declare-fun {} () Real)", n).unwrap();
         n
     }
@@ -107,6 +110,11 @@ impl<'a> Emit<'a> {
     pub fn tm(&mut self, id: u32) -> (String, usize) {
         if let Some(x) = self.memo.get(&id) {
             return x.clone();
+        }
+        if self.abs.contains(&id) && !matches!(self.e.nodes[id as usize], Node::Const(..) | Node::Var(..)) {
+            let v = self.declare("abs");
+            self.memo.insert(id, (v.clone(), 0));
+            return (v, 0);
         }
         let n = self.e.nodes[id as usize].clone();
         let r = match n {
@@ -202,26 +210,26 @@ impl<'a> Emit<'a> {
                 }
                 "sin" | "cos" => {
                     let k = self.trigpair(args[0]);
-                    (format!("{}{}", if f == "sin" { "sn" } else { "cs" }, k), 0)
+                    (format!("{}.{}", if f == "sin" { "sn" } else { "cs" }, k), 0)
                 }
                 "acos" => {
                     let (an, ad) = self.tm(args[0]);
                     let phi = self.declare("phi");
                     self.memo.insert(id, (phi.clone(), 0));
                     let k = self.trigpair(id);
-                    self.ax.push(format!("(= (* cs{} {}) {})", k, self.dn(ad), an));
-                    self.ax.push(format!("(>= sn{} 0.0)", k));
+                    self.ax.push(format!("(= (* cs.{} {}) {})", k, self.dn(ad), an));
+                    self.ax.push(format!("(>= sn.{} 0.0)", k));
                     self.need_pi();
                     self.ax.push(format!("(and (>= {} 0.0) (<= {} PI))", phi, phi));
                     // acos u = 0 <=> u = 1 ; = PI <=> u = -1
-                    self.ax.push(format!("(= (= {} 0.0) (= cs{} 1.0))", phi, k));
-                    self.ax.push(format!("(= (= {} PI) (= cs{} (- 1.0)))", phi, k));
+                    self.ax.push(format!("(= (= {} 0.0) (= cs.{} 1.0))", phi, k));
+                    self.ax.push(format!("(= (= {} PI) (= cs.{} (- 1.0)))", phi, k));
                     (phi, 0)
                 }
                 "floor" | "ceil" | "trunc" | "round" => {
                     let (an, ad) = self.tm(args[0]);
                     self.fresh += 1;
-                    let kk = format!("k{}", self.fresh);
+                    let kk = format!("k.{}", self.fresh);
                     writeln!(self.decls, "(declare-fun {} () Int)", kk).unwrap();
                     self.uses_int = true;
                     let d = self.dn(ad);
@@ -279,8 +287,8 @@ impl<'a> Emit<'a> {
         self.trigidx.insert(arg, k);
         self.trig.push((arg, k));
         self.nonlinear = true;
-        writeln!(self.decls, "(declare-fun sn{} () Real)\n(declare-fun cs{} () Real)", k, k).unwrap();
-        self.ax.push(format!("(= (+ (* sn{} sn{}) (* cs{} cs{})) 1.0)", k, k, k, k));
+        writeln!(self.decls, "(declare-fun sn.{} () Real)\n(declare-fun cs.{} () Real)", k, k).unwrap();
+        self.ax.push(format!("(= (+ (* sn.{} sn.{}) (* cs.{} cs.{})) 1.0)", k, k, k, k));
         k
     }
     /// sound instances of congruence, negation, angle-sum and the values at 0 / PI / PI/2
@@ -291,15 +299,15 @@ impl<'a> Emit<'a> {
         let info: Vec<(String, String, usize)> = args.iter().map(|&(a, k)| { let (xn, xd) = self.tm(a); (xn, self.dn(xd), k) }).collect();
         for i in 0..n {
             let (xn, xds, kx) = info[i].clone();
-            extra.push(format!("(=> (= {} 0.0) (and (= sn{} 0.0) (= cs{} 1.0)))", xn, kx, kx));
+            extra.push(format!("(=> (= {} 0.0) (and (= sn.{} 0.0) (= cs.{} 1.0)))", xn, kx, kx));
             if self.uses_pi {
-                extra.push(format!("(=> (= {} (* PI {})) (and (= sn{} 0.0) (= cs{} (- 1.0))))", xn, xds, kx, kx));
-                extra.push(format!("(=> (= (* 2.0 {}) (* PI {})) (and (= sn{} 1.0) (= cs{} 0.0)))", xn, xds, kx, kx));
+                extra.push(format!("(=> (= {} (* PI {})) (and (= sn.{} 0.0) (= cs.{} (- 1.0))))", xn, xds, kx, kx));
+                extra.push(format!("(=> (= (* 2.0 {}) (* PI {})) (and (= sn.{} 1.0) (= cs.{} 0.0)))", xn, xds, kx, kx));
                 // 0 < x < PI => sin x > 0 ; |x| < PI/2 => cos x > 0   (x = xn/xds, multiply by xds^2)
                 let x2 = format!("(* {} {})", xn, xds);
                 let d2 = format!("(* {} {})", xds, xds);
-                extra.push(format!("(=> (and (< 0.0 {}) (< {} (* PI {}))) (> sn{} 0.0))", x2, x2, d2, kx));
-                extra.push(format!("(=> (and (< (* (- 0.5) PI {}) {}) (< {} (* 0.5 PI {}))) (> cs{} 0.0))", d2, x2, x2, d2, kx));
+                extra.push(format!("(=> (and (< 0.0 {}) (< {} (* PI {}))) (> sn.{} 0.0))", x2, x2, d2, kx));
+                extra.push(format!("(=> (and (< (* (- 0.5) PI {}) {}) (< {} (* 0.5 PI {}))) (> cs.{} 0.0))", d2, x2, x2, d2, kx));
             }
             for j in 0..n {
                 if i == j {
@@ -307,8 +315,8 @@ impl<'a> Emit<'a> {
                 }
                 let (yn, yds, ky) = info[j].clone();
                 if i < j {
-                    extra.push(format!("(=> (= (* {} {}) (* {} {})) (and (= sn{} sn{}) (= cs{} cs{})))", xn, yds, yn, xds, kx, ky, kx, ky));
-                    extra.push(format!("(=> (= (* {} {}) (- (* {} {}))) (and (= sn{} (- sn{})) (= cs{} cs{})))", xn, yds, yn, xds, kx, ky, kx, ky));
+                    extra.push(format!("(=> (= (* {} {}) (* {} {})) (and (= sn.{} sn.{}) (= cs.{} cs.{})))", xn, yds, yn, xds, kx, ky, kx, ky));
+                    extra.push(format!("(=> (= (* {} {}) (- (* {} {}))) (and (= sn.{} (- sn.{})) (= cs.{} cs.{})))", xn, yds, yn, xds, kx, ky, kx, ky));
                 }
                 if n > 8 || i > j {
                     continue;
@@ -319,7 +327,7 @@ impl<'a> Emit<'a> {
                     }
                     let (zn, zds, kz) = info[l].clone();
                     extra.push(format!(
-                        "(=> (= (* {} {} {}) (* (+ (* {} {}) (* {} {})) {})) (and (= sn{} (+ (* sn{} cs{}) (* cs{} sn{}))) (= cs{} (- (* cs{} cs{}) (* sn{} sn{})))))",
+                        "(=> (= (* {} {} {}) (* (+ (* {} {}) (* {} {})) {})) (and (= sn.{} (+ (* sn.{} cs.{}) (* cs.{} sn.{}))) (= cs.{} (- (* cs.{} cs.{}) (* sn.{} sn.{})))))",
                         zn, xds, yds, xn, yds, yn, xds, zds, kz, kx, ky, kx, ky, kz, kx, ky, kx, ky
                     ));
                 }
@@ -331,7 +339,7 @@ impl<'a> Emit<'a> {
                 }
                 let (zn, zds, kz) = info[l].clone();
                 extra.push(format!(
-                    "(=> (= (* {} {}) (* 2.0 {} {})) (and (= sn{} (* 2.0 sn{} cs{})) (= cs{} (- (* cs{} cs{}) (* sn{} sn{})))))",
+                    "(=> (= (* {} {}) (* 2.0 {} {})) (and (= sn.{} (* 2.0 sn.{} cs.{})) (= cs.{} (- (* cs.{} cs.{}) (* sn.{} sn.{})))))",
                     zn, xds, xn, zds, kz, kx, kx, kz, kx, kx, kx, kx
                 ));
             }
